@@ -601,7 +601,7 @@ func runHistory(k *fw.Case) {
 	time.Sleep(200 * time.Microsecond)
 	atomic.StoreInt32(&stop, 1)
 	if !waitDone(&ewg, 3*progressBound) {
-		k.Inconclusive("executors did not stop (C17/C09's subject)")
+		k.Violate("history-wedged", fmt.Sprintf("executions issued next to updates did not return within %v after the last update had returned: the pool serves no version at all any more", 3*progressBound), dump())
 		return
 	}
 	// ---- checker ----
